@@ -216,21 +216,60 @@ fn h_process_pending(np: usize) {
     core::mem::forget(e);
 }
 
-macro_rules! inst {
-    ($name:ident, $unwind:expr, $body:expr) => {
-        #[kani::proof]
-        #[kani::unwind($unwind)]
-        #[kani::stub(alloc::fmt::format, fmt_stub)]
-        fn $name() {
-            $body;
-        }
-    };
+// harness instances (plain functions: Kani's in-place playback cannot insert into a macro)
+
+#[kani::proof]
+#[kani::unwind(6)]
+#[kani::stub(alloc::fmt::format, fmt_stub)]
+fn c06_allocate__0() {
+    h_allocate(0);
 }
-inst!(c06_allocate__0, 6, h_allocate(0));
-inst!(c06_allocate__2, 6, h_allocate(2));
-inst!(c06_retain_release__0_flat, 6, h_retain_release(0, false));
-inst!(c06_retain_release__2_flat, 6, h_retain_release(2, false));
-inst!(c06_retain_release__1_nested, 6, h_retain_release(1, true));
-inst!(c06_process_pending__0, 6, h_process_pending(0));
-inst!(c06_process_pending__1, 6, h_process_pending(1));
-inst!(c06_process_pending__3, 7, h_process_pending(3));
+
+#[kani::proof]
+#[kani::unwind(6)]
+#[kani::stub(alloc::fmt::format, fmt_stub)]
+fn c06_allocate__2() {
+    h_allocate(2);
+}
+
+#[kani::proof]
+#[kani::unwind(6)]
+#[kani::stub(alloc::fmt::format, fmt_stub)]
+fn c06_retain_release__0_flat() {
+    h_retain_release(0, false);
+}
+
+#[kani::proof]
+#[kani::unwind(6)]
+#[kani::stub(alloc::fmt::format, fmt_stub)]
+fn c06_retain_release__2_flat() {
+    h_retain_release(2, false);
+}
+
+#[kani::proof]
+#[kani::unwind(6)]
+#[kani::stub(alloc::fmt::format, fmt_stub)]
+fn c06_retain_release__1_nested() {
+    h_retain_release(1, true);
+}
+
+#[kani::proof]
+#[kani::unwind(6)]
+#[kani::stub(alloc::fmt::format, fmt_stub)]
+fn c06_process_pending__0() {
+    h_process_pending(0);
+}
+
+#[kani::proof]
+#[kani::unwind(6)]
+#[kani::stub(alloc::fmt::format, fmt_stub)]
+fn c06_process_pending__1() {
+    h_process_pending(1);
+}
+
+#[kani::proof]
+#[kani::unwind(7)]
+#[kani::stub(alloc::fmt::format, fmt_stub)]
+fn c06_process_pending__3() {
+    h_process_pending(3);
+}
